@@ -8,9 +8,14 @@ from gen import pyfmt as G
 def main():
     chk = common.Check('C12')
     import pyfmt_common as C
-    proved = chk.prove('I18n.Props.C12', generated=('pyfmt',))
-    problems = ' '.join(chk.lean.problems)
-    driver_ok = os.path.exists(common.driver_path()) and not any('untranslatable' in s for s in chk.lean.translation.values()) \
+    proved = chk.prove('I18n.Props.C12', generated=('pyfmt', 'pyfmtconv'), extra_targets=())
+    problems = ' '.join(p for p in chk.lean.problems if 'translator(pyfmtconv)' not in p)
+    # the tie by translation (first part): Conversion.__init__ / FormatString.add_argument regenerated from the current lib/strformat/python.py and
+    # proved equal to PyFmt.conversion / addArgument (Props/C12Tie.lean)
+    tie_ok = common.prove_tie(chk, 'I18n.Props.C12Tie', ('pyfmtconv',),
+                              'Conversion.__init__ / FormatString.add_argument regenerated from the current lib/strformat/python.py (Generated/PyFmtConv.lean) are no longer '
+                              'proved equal to PyFmt.conversion / PyFmt.addArgument (generated_conversion_eq_model, generated_add_argument_eq_model, generated_parse_eq_model and the corollaries)')
+    driver_ok = os.path.exists(common.driver_path()) and not any('untranslatable' in s for k, s in chk.lean.translation.items() if k != 'pyfmtconv') \
         and 'Driver' not in problems and 'I18n.Model' not in problems and 'I18n.Spec' not in problems
 
     boost = 3 if chk.broken else 1
@@ -29,6 +34,12 @@ def main():
             disagreeing += ss
         sample = fam['corpus'] + fam['boundary'] + fam['multi'][:3000] + fam['malformed'][:2000] + fam['single'][:1500]
         disagreeing += C.run_nowarn_stream(chk, sample)
+        if tie_ok:
+            # the same inputs through the parser whose Conversion.__init__ is the definition regenerated from the source (driver ops gparse / gparse-nowarn)
+            for name, strings in fam.items():
+                if strings:
+                    chk.stream('pyfmt-' + name + '-generated', ['pyfmt gparse ' + C.hexchars(x) for x in strings], [C.impl_parse(x) for x in strings])
+            chk.stream('pyfmt-nowarn-generated', ['pyfmt gparse-nowarn ' + C.hexchars(x) for x in sample], [C.impl_parse(x, C.nowarn_class()) for x in sample])
         disagreeing += C.run_plain_stream(chk, fam['corpus'] + fam['boundary'] + fam['context'] + fam['short'] + fam['multi'] + fam['malformed'])
         # the reference model of the interpreter against the interpreter
         ostr = fam['corpus'] + fam['boundary'] + fam['short'] + fam['context'][::3] + fam['single'] + fam['multi'] + fam['malformed']
